@@ -6,6 +6,8 @@ from concurrent.futures import ThreadPoolExecutor
 import vlib
 from vlib import clist
 from props import agent_lib
+from props import paramslog_lib as pl
+from props import C11 as c11
 
 SHARD = 2500
 OKST = (4, 5)          # finished, skipped
@@ -147,10 +149,32 @@ def run(ctx, replay_cases=None):
             ctx.fail("monitor", "agent-level retry: " + why, c, cls={"class": "agent-retry", "sub": c.get("sub")})
         nontrivial.add(json.dumps(["agent-retry", c.get("sub"), c.get("steps")]))
     agent_lib.check_model(ctx, acases, tag="c10_agent")
+    # ---- monitor: the real `retry --req <id>` command re-uses the recorded parameter values --------------------
+    # (the `retrycmd` stream of the params driver of C11: real `start -p` in a process with $C11VAR=alpha on a DAG whose
+    #  second step fails once, then the real `retry` command in a process with $C11VAR=beta)
+    ptool, pout, _ = vlib.go_build("params", ctx.scratch)
+    rcases = []
+    if ptool is None:
+        ctx.fail("correspondence", "params driver does not build against /repo", {"log": pout[-1500:]})
+    else:
+        lists = [[{"kind": "q", "value": "hello world"}],
+                 [{"kind": "q", "value": "a b"}, {"kind": "w", "value": "c"}, {"kind": "q", "value": "d e"}],
+                 [{"kind": "w", "value": "alpha"}, {"kind": "nw", "name": "DAY", "value": "${C11VAR}"}],
+                 [{"kind": "nq", "name": "NAME", "value": "x y"}, {"kind": "w", "value": "z"}]]
+        rcases = pl.replay_cases(ptool, ctx, [{"stream": "retrycmd", "gen": "c10", "s": "", "items": it} for it in lists], tag="c10retry")
+        if len(rcases) != len(lists):
+            ctx.fail("correspondence", "the retry-command cases could not be run (params driver, replay mode)", {"got": len(rcases)})
+        for c in rcases:
+            r = c11.monitor_retrycmd(c)
+            if r:
+                what, cls = r
+                if cls.get("class") in ("v0", "retry-values", "v1"):
+                    ctx.fail("monitor", "retry command: " + what, c11.slim(c), cls={"class": "retry-command-params"})
+            nontrivial.add(json.dumps(["retrycmd", c.get("items")]))
     for c in reset_ok:
         if any(s in (2, 3) for s in c["st"]) and any(c["deps"]):
             nontrivial.add(json.dumps([c["deps"], c["st"]]))
-    ctx.cov["evaluations"] = len(cases) + len(acases)
+    ctx.cov["evaluations"] = len(cases) + len(acases) + len(rcases)
     ctx.cov["traces_validated_against_impl"] = len(reset_ok) + len(runs)
     ctx.cov["distinct_nontrivial"] = len(nontrivial)
     ctx.cov["rule"] = ("reset stream: every acyclic digraph on <=3 nodes x every recorded status vector in {none,running,failed,"
@@ -167,7 +191,7 @@ def run(ctx, replay_cases=None):
                        "only steps of the record run. "
                        "non-trivial = at least one dependency edge and at least one recorded step that is not finished/skipped; "
                        "distinct by (graph, recorded vector, flags)")
-    ctx.cov["streams"] = {"reset": len(reset), "run": len(runs), "params": len(pcases), "agent_retry": len(acases)}
+    ctx.cov["streams"] = {"reset": len(reset), "run": len(runs), "params": len(pcases), "agent_retry": len(acases), "retry_command": len(rcases)}
     ctx.cov["run_classes"] = classes
     ctx.cov["exhaustive"] = False
     for c in reset_ok[300:301] + runs[:2] + pcases[:1]:
